@@ -29,14 +29,14 @@ CONFIGS = {
                     Tests={"node()", "*", "a", "b", "text()", "comment()", "processing-instruction()"},
                     Preds={"0", "1", "2", "last()", "b"}, ParenPreds={"0", "1", "2", "last()"},
                     Preds2=set(), DocSibs=False, NsTests=set())),
-        ('N3', dict(N=3, Kinds={"ea", "eb", "t", "c", "p", "xa"}, RootCfg="R1", Axes=set(AXES),
+        ('N3', dict(Rotate=True, N=3, Kinds={"ea", "eb", "t", "c", "p", "xa"}, RootCfg="R1", Axes=set(AXES),
                     Tests={"node()", "*", "a", "b", "text()", "comment()", "processing-instruction()"},
                     Preds={"1", "2", "last()", "b"}, ParenPreds={"1", "2", "last()"}, Preds2=set(), DocSibs=False, NsTests=set())),
         ('N3-R2', dict(N=3, Kinds={"ea", "eb", "t", "xa"}, RootCfg="R2", Axes=set(AXES),
                        Tests={"node()", "*", "a", "text()"}, Preds={"1", "last()"}, ParenPreds={"last()"}, Preds2=set(), DocSibs=False, NsTests=set())),
         ('N3-R3', dict(N=3, Kinds={"ea", "eb", "t", "xa"}, RootCfg="R3", Axes=set(AXES),
                        Tests={"node()", "*", "a", "text()"}, Preds={"1", "last()"}, ParenPreds={"last()"}, Preds2=set(), DocSibs=False, NsTests=set())),
-        ('N4', dict(N=4, Kinds={"ea", "eb", "t"}, RootCfg="R1", Axes=set(AXES),
+        ('N4', dict(Rotate=True, N=4, Kinds={"ea", "eb", "t"}, RootCfg="R1", Axes=set(AXES),
                     Tests={"node()", "*", "a", "text()"}, Preds={"2"}, ParenPreds={"2"}, Preds2=set(), DocSibs=False, NsTests=set())),
         # namespaced names: prefix:name, prefix:*, *:name tests (urn:x is a string prefix of urn:x-y)
         ('N3-NS', dict(N=3, Kinds={"ea", "en", "em", "xn"}, RootCfg="R1",
@@ -316,6 +316,9 @@ def kinds_of(kind: tuple, nodes) -> str:
 def tree_worker(job):
     """Replay every transition of one tree."""
     (parent, kind, root_cfg, states, init_sid, out_edges, seed, modes_all, dns) = job
+    rotate = isinstance(modes_all, str) and modes_all == 'rotate'     # big quick configurations: 1.0 + one of 2.0/3.0/3.1 per edge
+    modes_all = modes_all is True
+    edge_no = 0
     nsx = dns == 'nsx'
     mark = NSX_MARK if nsx else DNS_MARK
     docs = {'lxml': Doc(parent, kind, 'lxml', NS3 if nsx else None)}
@@ -407,7 +410,8 @@ def tree_worker(job):
                     if lres != expected:
                         oracle_disagreements.append(dict(tree=[parent, kind], root=root_cfg, path=text,
                                                          spec=expected, libxml2=lres))
-                for v in versions:
+                edge_no += 1
+                for v in (('1.0', ('2.0', '3.0', '3.1')[edge_no % 3]) if rotate else versions):
                     if v < minv:
                         continue
                     for lib in libs:
@@ -655,6 +659,8 @@ def run(chk: core.Check) -> None:
         cfgs = [c for c in cfgs if c[0] in only.split(',')]
     chk.coverage['configs'] = [dict(name=n, **{k: (sorted(v) if isinstance(v, set) else v) for k, v in c.items()}) for n, c in cfgs]
     for name, consts in cfgs:
+        consts = dict(consts)
+        rotate_cfg = consts.pop('Rotate', False)
         wd = os.path.join(chk.scratch, name)
         dot = os.path.join(wd, 'graph.dot')
         os.makedirs(wd, exist_ok=True)
@@ -676,7 +682,7 @@ def run(chk: core.Check) -> None:
         for s, d, a, args in g.edges:
             trees[tree_of[s]][2].setdefault(s, []).append((d, a, args))
         dns = 'dns' if any(t.startswith('dns:') for t in consts['Tests']) else 'nsx' if 'r' in consts['NsTests'] else False
-        jobs = [(p, k, consts['RootCfg'], sts, init, oe, chk.seed, False, dns)
+        jobs = [(p, k, consts['RootCfg'], sts, init, oe, chk.seed, 'rotate' if rotate_cfg else False, dns)
                 for (p, k), (sts, init, oe) in trees.items()]
         n_edges = len(g.edges)
         del g
